@@ -90,13 +90,30 @@ def parse_grid(grid_str):
 
 def _is_grid_object(obj):
     # A nested grid is an object with meta (itself an object carrying the
-    # version), cols (an array) and rows.  The key names alone are not enough:
-    # {"meta": .., "cols": .., "rows": ..} is also a legal dict of three tags.
-    if not {"meta", "cols", "rows"} <= set(obj.keys()):
+    # version) and cols (an array of objects that each carry a name), and
+    # possibly rows (absent, null or an array of objects) - and nothing else.
+    # The key names alone are not enough: {"meta": .., "cols": .., "rows": ..}
+    # is also a legal dict of three tags.
+    keys = set(obj.keys())
+    if not ({"meta", "cols"} <= keys <= {"meta", "cols", "rows"}):
         return False
     meta = obj['meta']
-    return isinstance(meta, dict) and ('ver' in meta) \
-        and isinstance(obj['cols'], list)
+    if not (isinstance(meta, dict)
+            and isinstance(meta.get('ver'), six.string_types)):
+        return False
+    try:
+        Version(meta['ver'])
+    except ValueError:
+        return False
+    cols = obj['cols']
+    if not (isinstance(cols, list) and all(
+            isinstance(col, dict)
+            and isinstance(col.get('name'), six.string_types)
+            for col in cols)):
+        return False
+    rows = obj.get('rows')
+    return (rows is None) or (isinstance(rows, list)
+                              and all(isinstance(row, dict) for row in rows))
 
 
 def parse_embedded_scalar(scalar, version=LATEST_VER):
